@@ -6,6 +6,9 @@
 (*  "cc"    circle / circle contains and intersects on the lattice;         *)
 (*  "frac"  a probe placed at distance f/10000 of the radius from the       *)
 (*          centre at some bearing: inside exactly when f <= 10000;         *)
+(*  "dist"  Object.Distance between point-like objects at lattice positions  *)
+(*          c and p: D(c,p) steps of u (within 50 millionths of u), and the  *)
+(*          same in both call directions;                                     *)
 (*  "ser"   Circle -> JSON -> Parse gives a Circle with the same centre and *)
 (*          radius (also km units and a radius given as a string);          *)
 (*  "shape" the polygon approximation is a closed ring whose rectangle      *)
@@ -17,6 +20,7 @@ Good(e) ==
      [] e.op = "cc" -> (e.kind = "contains" /\ (AmbiguousContains(e.c, e.r, e.c2, e.r2) \/ e.got = ContainsCircle(e.c, e.r, e.c2, e.r2)))
                        \/ (e.kind = "intersects" /\ (AmbiguousIntersects(e.c, e.r, e.c2, e.r2) \/ e.got = IntersectsCircle(e.c, e.r, e.c2, e.r2)))
      [] e.op = "frac" -> e.got = (e.f <= 10000)
+     [] e.op = "dist" -> e.steps = D(e.c, e.p) /\ e.err_ppm <= 50 /\ e.symmetric
      [] e.op = "ser" -> e.iscircle /\ e.samecentre /\ e.sameradius
      [] e.op = "shape" -> e.closed /\ e.rectHasCentre /\ e.steps >= 3
 Judge == pos > 0 =>
